@@ -20,8 +20,14 @@ NUMDOM = [None, -2, 0, 1, 3]
 STRDOM = [None, 1, 2, 3]
 STATS = ['count', 'total', 'min', 'max', 'mean', 'variance-n', 'variance', 'standard-deviation-n',
          'standard-deviation', 'median']
-SRC = ('<dtml-in seq%s><dtml-if sequence-end>' + '|'.join('%s=<dtml-var %s-x>' % (s, s) for s in STATS) +
-       '</dtml-if></dtml-in>')
+def src_for(rot):
+    """the statistics are computed together and cached on the first one asked for: every statistic is the first one in one
+    of the ten rotations of the template"""
+    order = STATS[rot % len(STATS):] + STATS[:rot % len(STATS)]
+    if rot % 20 >= 10:
+        order.reverse()
+    return ('<dtml-in seq%s><dtml-if sequence-end>' + '|'.join('%s=<dtml-var %s-x>' % (s, s) for s in order) +
+            '</dtml-if></dtml-in>')
 REAL = [('int', 1, 0), ('float', 1.0, 0.0), ('quarter', 0.25, 0.0), ('fine', 2.0 ** -15, 0.5),
         # mixed lists: halves, where the integral values are ints and the others floats (with and without an offset, so that
         # an int follows a fractional float in sorted order and vice versa)
@@ -55,11 +61,11 @@ class O:
 _t = {}
 
 
-def render(seq, mapping):
+def render(seq, mapping, rot=0):
     from DocumentTemplate.DT_HTML import HTML
-    key = mapping
+    key = (mapping, rot % 20)
     if key not in _t:
-        _t[key] = HTML(SRC % (' mapping' if mapping else ''))
+        _t[key] = HTML(src_for(rot) % (' mapping' if mapping else ''))
     return _t[key](seq=seq)
 
 
@@ -68,7 +74,7 @@ def observe(item):
     res = []
     numeric = any(x['t'] == 'num' for x in d)
     reals = REAL if numeric else [('str', 1, 0)]
-    for rname, u, off in reals:
+    for ri, (rname, u, off) in enumerate(reals):
         for mapping in (False, True):
             seq = []
             for j, x in enumerate(d):
@@ -94,7 +100,7 @@ def observe(item):
                     seq.append(o)
             rec = {'ok': 1, 'real': rname, 'mapping': mapping}
             try:
-                out = render(seq, mapping)
+                out = render(seq, mapping, rot=i * 7 + ri * 3 + int(mapping))
                 rec['raw'] = out
                 f = dict(p.split('=', 1) for p in out.split('|'))
                 rec.update(normalise(f, u, off, numeric))
